@@ -12,7 +12,7 @@ func init() {
 
 	// WHT transforms.
 	FTransformWHT = fTransformWHTSSE2
-	TransformWHT = transformWHTSSE2
+	TransformWHT = transformWHTDecSSE2
 
 	// 16x16 luma prediction modes.
 	PredLuma16[0] = dc16SSE2
@@ -129,16 +129,57 @@ func iTransformSSE2(ref []byte, in []int16, dst []byte, doTwo bool) {
 // row sequentially (read 4B → compute → write 4B) at stride 32, so each row's
 // ref bytes are consumed before that row's dst bytes are written.
 func transformTwoDecSSE2(in []int16, dst []byte, doTwo bool) {
-	iTransformOneSSE2(dst, in, dst)
+	decTransformOne(iTransformOneSSE2, in, dst)
 	if doTwo {
-		iTransformOneSSE2(dst[4:], in[16:], dst[4:])
+		decTransformOne(iTransformOneSSE2, in[16:], dst[4:])
 	}
 }
 
 // transformUVSSE2 applies SSE2 IDCT for all four chroma 4x4 blocks.
 func transformUVSSE2(in []int16, dst []byte) {
-	iTransformOneSSE2(dst, in, dst)
-	iTransformOneSSE2(dst[4:], in[16:], dst[4:])
-	iTransformOneSSE2(dst[4*BPS:], in[32:], dst[4*BPS:])
-	iTransformOneSSE2(dst[4*BPS+4:], in[48:], dst[4*BPS+4:])
+	decTransformOne(iTransformOneSSE2, in, dst)
+	decTransformOne(iTransformOneSSE2, in[16:], dst[4:])
+	decTransformOne(iTransformOneSSE2, in[32:], dst[4*BPS:])
+	decTransformOne(iTransformOneSSE2, in[48:], dst[4*BPS+4:])
+}
+
+// The SIMD inverse transforms compute in 16-bit lanes. A bitstream may carry
+// dequantized coefficients (any int16) for which those lanes overflow, while
+// the format defines the result with wider arithmetic (the portable kernels).
+// The SIMD kernels are exact whenever the sum of coefficient magnitudes stays
+// below these bounds; larger blocks take the portable path.
+const (
+	simdIDCTMaxAbsSum = 8192  // every IDCT intermediate is < 1.71*sum + 4
+	simdWHTMaxAbsSum  = 32000 // every WHT intermediate is <= sum + 3
+)
+
+// absSum16 returns the sum of magnitudes of the first 16 coefficients.
+func absSum16(in []int16) int {
+	_ = in[15]
+	s := 0
+	for _, v := range in[:16] {
+		x := int(v)
+		m := x >> 31
+		s += (x ^ m) - m
+	}
+	return s
+}
+
+// decTransformOne runs one decoder-side 4x4 inverse DCT (dst += IDCT(in)),
+// using the SIMD kernel when it is exact for these coefficients.
+func decTransformOne(simd func(ref []byte, in []int16, dst []byte), in []int16, dst []byte) {
+	if absSum16(in) > simdIDCTMaxAbsSum {
+		transformOne(in, dst)
+		return
+	}
+	simd(dst, in, dst)
+}
+
+// transformWHTDecSSE2 is the inverse WHT with the same exactness guard.
+func transformWHTDecSSE2(in []int16, out []int16) {
+	if absSum16(in) > simdWHTMaxAbsSum {
+		transformWHT(in, out)
+		return
+	}
+	transformWHTSSE2(in, out)
 }
